@@ -65,8 +65,16 @@ theorem microDet_hs {fl cfg s p s' p'} (hp : ∀ t op, p ≠ .fresh t op) (hs : 
     simp only [microDet] at hs
     split at hs
     · cases hs
-    · have := (recvStep_popped hs).1.shell
-      simpa [St.shell] using congrArg Shell.hs this
+    · split at hs
+      · rename_i hr
+        cases hs
+        have := (recvStep_popped hr).1.shell
+        simpa [St.shell] using congrArg Shell.hs this
+      · split at hs
+        · cases hs
+          have := (mbFlush_fields fl s).2.2.2.1
+          simpa [St.shell] using congrArg Shell.hs this
+        · cases hs
   | rvSend t v =>
     simp only [microDet] at hs
     split at hs
@@ -178,7 +186,10 @@ theorem start_TD (fl cfg s t op) (htd : TD s) :
               have hp := (recvStep_popped (by rw [hr] : recvStep fl cfg s t f hd n [] = some (r.1, r.2))).1.shell
               have h1 : r.1.hs = s.hs := by simpa [St.shell] using congrArg Shell.hs hp
               exact ⟨TD_of_hs h1 hne, Or.inr ⟨h1, hne⟩⟩
-            · exact ⟨htd, Or.inr ⟨rfl, hne⟩⟩
+            · have h1 : (mbFlush fl s).hs = s.hs := by
+                have := (mbFlush_fields fl s).2.2.2.1
+                simpa [St.shell] using congrArg Shell.hs this
+              exact ⟨TD_of_hs h1 hne, Or.inr ⟨h1, hne⟩⟩
   | clone h h' =>
     simp only [start]; unfold startClone
     split
